@@ -204,6 +204,14 @@ example : ∃ s' r, execute env (at' 2) ⟨"exec", [], .executeMatch A1 B1 "2.5"
   · exact C10_mechanism env _ s' _ r hs (exactStep_of_B hx) h
   · exact C17_truthful env _ s' _ r hs (exactStep_of_B hx) h
 
+/-- on that match the fee that leaves the bid is paid out (`C09_fee_leaves`), by direct evaluation:
+    the bid held 90 + 9, holds 60 + 6 afterwards (a price improvement of 5 returned, 3 fee
+    paid), the ask is owed nothing in the quote denomination -/
+example : (match execute env (at' 2) ⟨"exec", [], .executeMatch A1 B1 "2.5" 10⟩ with
+    | .ok (s', r) => C09_feeLeavesOK env.contract (at' 2) ⟨"exec", [], .executeMatch A1 B1 "2.5" 10⟩ A1 B1 r s' &&
+        bidHeld "quote" (at' 2) B1 == 99 && bidHeld "quote" s' B1 == 66
+    | .err _ => false) = true := by decide +kernel
+
 /-- the amounts of that match, computed by the exact-arithmetic specification: gross 25,
     ask fee 3 (2.5 rounded half away from zero), bid fee 3 (the 28-place quotient 65/90 makes the
     fee still needed 6.4999… → 6, one of the two nearest units of the exact tie 6.5), quote
